@@ -560,7 +560,9 @@ func (p *jsonPathParser) _createBasicCompareQuery(
 
 func (p *jsonPathParser) pushCompareEQ(
 	leftParam, rightParam *syntaxBasicCompareParameter) {
-	if leftParam.isLiteral {
+	_, leftIsLiteralValue := leftParam.param.(*syntaxQueryParamLiteral)
+	_, rightIsLiteralValue := rightParam.param.(*syntaxQueryParamLiteral)
+	if leftIsLiteralValue || (leftParam.isLiteral && !rightIsLiteralValue) {
 		rightParam, leftParam = leftParam, rightParam
 	}
 
